@@ -505,14 +505,28 @@ func (d *Dispatcher) feed(p *peer) {
 }
 
 func (d *Dispatcher) dispatch(p *peer, msg *conn.Message) error {
+	// The type and the body of a message are independent fields on the wire:
+	// a remote peer can send a type without the matching body.
 	switch msg.Message.Type {
 	case p2p.Message_ERROR:
+		if msg.Message.Error == nil {
+			return errors.New("error message has no body")
+		}
 		d.handleError(p, msg.Message.Error)
 	case p2p.Message_ANNOUCE_PIECE:
+		if msg.Message.AnnouncePiece == nil {
+			return errors.New("announce piece message has no body")
+		}
 		d.handleAnnouncePiece(p, msg.Message.AnnouncePiece)
 	case p2p.Message_PIECE_REQUEST:
+		if msg.Message.PieceRequest == nil {
+			return errors.New("piece request message has no body")
+		}
 		d.handlePieceRequest(p, msg.Message.PieceRequest)
 	case p2p.Message_PIECE_PAYLOAD:
+		if msg.Message.PiecePayload == nil || msg.Payload == nil {
+			return errors.New("piece payload message has no body")
+		}
 		d.handlePiecePayload(p, msg.Message.PiecePayload, msg.Payload)
 	case p2p.Message_CANCEL_PIECE:
 		d.handleCancelPiece(p, msg.Message.CancelPiece)
